@@ -524,6 +524,52 @@ def sl_classes(case):
   return out
 
 
+def gen_sub(rng, kind):
+  world = dict(a=[0, 1, 2, 3], b=[0, 1])
+  nb = rng.choice([2, 3, 4, 5, 6])
+  # clustered data: sorted by the slice feature (a value first shows up late) or uniformly mixed
+  batches = []
+  total = 0
+  for bi in range(nb):
+    n = rng.choice([0, 1, 2, 2, 3])
+    if kind == 'sorted':
+      a = sorted(rng.choice(world['a']) for _ in range(n))
+    else:
+      a = [rng.choice(world['a']) for _ in range(n)]
+    batches.append(dict(a=a, b=[rng.choice(world['b']) for _ in range(n)],
+                        x=[rng.randrange(-3, 9) for _ in range(n)], y=[rng.randrange(0, 5) for _ in range(n)]))
+    total += n
+  if kind == 'sorted':
+    flat = sorted((r for b in batches for r in zip(b['a'], b['b'], b['x'], b['y'])), key=lambda r: r[0])
+    pos = 0
+    for b in batches:
+      n = len(b['a'])
+      rows = flat[pos:pos + n]
+      pos += n
+      b['a'], b['b'], b['x'], b['y'] = ([r[j] for r in rows] for j in range(4))
+  # aggregates that can merge (c02's plain AggregateFns SumCount / Total have no merge_states)
+  aggs = [dict(kind=rng.choice(['meanvar', 'mean', 'counter', 'dot']), out=['o'], **{'in': [rng.choice(['x', 'y'])]})]
+  if aggs[0]['kind'] == 'dot':
+    aggs[0].update(out=['o', 'o2'], **{'in': ['x', 'y']})
+  if rng.random() < 0.4:
+    aggs.append(dict(kind=rng.choice(['mean', 'counter', 'meanvar']), out=['p'], **{'in': ['y']}, noslice=rng.random() < 0.3))
+  slicers = []
+  r = rng.random()
+  if r < 0.45:
+    slicers.append(dict(name=['a'], keys=['a'], kind='default'))
+  elif r < 0.6:
+    slicers.append(dict(name=['a', 'b'], keys=['a', 'b'], kind='default'))
+  elif r < 0.75:
+    slicers.append(dict(name=['a'], keys=['a'], kind='within', within=[sorted(rng.sample(world['a'], 2))]))
+  elif r < 0.9:
+    slicers.append(dict(name=['f'], keys=['a'], kind='fn', fn=rng.choice(['parity', 'self_and_neg', 'small', 'twice_small'])))
+  else:
+    slicers.append(dict(name=['a'], keys=['a'], kind='default'))
+    slicers.append(dict(name=['b'], keys=['b'], kind='default'))
+  return dict(aggs=aggs, slicers=slicers, batches=batches, np=['a', 'b', 'x', 'y'])
+
+
+
 def gen_sliced(ctx):
   rng = ctx.rng
   c02 = _c02()
@@ -531,48 +577,7 @@ def gen_sliced(ctx):
   nrand = 70 if ctx.quick else 1200
 
   def sub_case(kind):
-    world = dict(a=[0, 1, 2, 3], b=[0, 1])
-    nb = rng.choice([2, 3, 4, 5, 6])
-    # clustered data: sorted by the slice feature (a value first shows up late) or uniformly mixed
-    batches = []
-    total = 0
-    for bi in range(nb):
-      n = rng.choice([0, 1, 2, 2, 3])
-      if kind == 'sorted':
-        a = sorted(rng.choice(world['a']) for _ in range(n))
-      else:
-        a = [rng.choice(world['a']) for _ in range(n)]
-      batches.append(dict(a=a, b=[rng.choice(world['b']) for _ in range(n)],
-                          x=[rng.randrange(-3, 9) for _ in range(n)], y=[rng.randrange(0, 5) for _ in range(n)]))
-      total += n
-    if kind == 'sorted':
-      flat = sorted((r for b in batches for r in zip(b['a'], b['b'], b['x'], b['y'])), key=lambda r: r[0])
-      pos = 0
-      for b in batches:
-        n = len(b['a'])
-        rows = flat[pos:pos + n]
-        pos += n
-        b['a'], b['b'], b['x'], b['y'] = ([r[j] for r in rows] for j in range(4))
-    # aggregates that can merge (c02's plain AggregateFns SumCount / Total have no merge_states)
-    aggs = [dict(kind=rng.choice(['meanvar', 'mean', 'counter', 'dot']), out=['o'], **{'in': [rng.choice(['x', 'y'])]})]
-    if aggs[0]['kind'] == 'dot':
-      aggs[0].update(out=['o', 'o2'], **{'in': ['x', 'y']})
-    if rng.random() < 0.4:
-      aggs.append(dict(kind=rng.choice(['mean', 'counter', 'meanvar']), out=['p'], **{'in': ['y']}, noslice=rng.random() < 0.3))
-    slicers = []
-    r = rng.random()
-    if r < 0.45:
-      slicers.append(dict(name=['a'], keys=['a'], kind='default'))
-    elif r < 0.6:
-      slicers.append(dict(name=['a', 'b'], keys=['a', 'b'], kind='default'))
-    elif r < 0.75:
-      slicers.append(dict(name=['a'], keys=['a'], kind='within', within=[sorted(rng.sample(world['a'], 2))]))
-    elif r < 0.9:
-      slicers.append(dict(name=['f'], keys=['a'], kind='fn', fn=rng.choice(['parity', 'self_and_neg', 'small', 'twice_small'])))
-    else:
-      slicers.append(dict(name=['a'], keys=['a'], kind='default'))
-      slicers.append(dict(name=['b'], keys=['b'], kind='default'))
-    return dict(aggs=aggs, slicers=slicers, batches=batches, np=['a', 'b', 'x', 'y'])
+    return gen_sub(rng, kind)
 
   def partition(n):
     """a partition of the batch indexes 0..n-1 into 1..5 consecutive shards, empty shards allowed"""
@@ -598,6 +603,14 @@ def gen_sliced(ctx):
       st = dict(runner=runner, states_as=how, strict=(how != 'list'), input=rng.choice(['list', 'iter']))
       n = len(sub['batches'])
       cases.append(dict(fam='sliced', sub=sub, parts=[list(range(0, n // 2)), list(range(n // 2, n))], strat=st))
+  # one case per promised class, searched for (cheap: the classes are computed from the data)
+  for cls in SL_REQUIRED['sliced:class']:
+    for _ in range(400):
+      sub = sub_case('sorted')
+      c = dict(fam='sliced', sub=sub, parts=partition(len(sub['batches'])), strat=strat())
+      if cls in sl_classes(c):
+        cases.append(c)
+        break
   for _ in range(nrand):
     sub = sub_case(rng.choice(['sorted', 'sorted', 'mixed']))
     st = strat()
@@ -619,6 +632,62 @@ def gen_sliced(ctx):
   return cases
 
 
+def gen_pool(ctx):
+  """SLICED aggregations through orchestrate.sharded_pipelines_as_iterator over a worker pool (harness/lib_c16x.py)"""
+  rng = ctx.rng
+  cases = []
+  for _ in range(1 if ctx.quick else 12):
+    items = []
+    for j in range(6):
+      want = {1: 'key absent from the FIRST shard', 2: 'key absent from the LAST shard'}.get(j)
+      for _ in range(400):
+        sub = gen_sub(rng, 'sorted' if j % 3 else 'mixed')
+        item = dict(sub=sub, k=rng.choice([2, 3, 3, 4, 5]) if j else max(1, len(sub['batches'])), workers=rng.choice([1, 2, 3]))
+        if want is None or want in sl_classes(pool_pseudo(item)):
+          break
+      items.append(item)
+    cases.append(dict(fam='pool', items=items))
+  return cases
+
+
+def pool_pseudo(item):
+  return dict(fam='sliced', sub=item['sub'], parts=None,
+              strat=dict(via='pool', k=item['k'], workers=item['workers'], strict=True, states_as='gen', runner='aggregate'))
+
+
+def pool_counts(ctx, case):
+  ctx.count('x-family', 'pool')
+  for item in case['items']:
+    ctx.count('sliced:via', 'pool')
+    ctx.count('pool:workers', item['workers'])
+    ctx.count('pool:shards', item['k'])
+    for c in sl_classes(pool_pseudo(item)):
+      ctx.count('pool:class', c)
+
+
+def pool_oracle(case, obs):
+  for item, o in zip(case['items'], obs):
+    w = sl_oracle(pool_pseudo(item), o)
+    if w:
+      return w
+    m = o.get('merged') or {}
+    if not (o.get('whole') or {}).get('err') and m.get('nresults') != 1:
+      return f"{sl_tag(pool_pseudo(item)['strat'])} {m.get('nresults')} AggregateResults on the result queue instead of exactly one"
+  return None
+
+
+def pool_model_requests(case):
+  return [r for item in case['items'] for r in sl_model_requests(pool_pseudo(item))]
+
+
+def pool_compare(case, obs, resps):
+  for item, o, r in zip(case['items'], obs, resps):
+    d = sl_compare(pool_pseudo(item), o, [r])
+    if d:
+      return f"{sl_tag(pool_pseudo(item)['strat'])} {d}"
+  return None
+
+
 def sl_counts(ctx, case):
   st = case['strat']
   ctx.count('x-family', 'sliced')
@@ -636,7 +705,8 @@ SL_REQUIRED = {'sliced:class': ['key absent from the FIRST shard', 'key absent f
                                 'disjoint key sets', 'empty shard', 'empty FIRST shard', 'key only in the first shard'],
                'sliced:runner': ['chained', 'transform', 'aggregate', 'chained+two stages'],
                'sliced:states': ['list', 'gen+strict', 'iter'], 'sliced:input': ['list', 'iter'],
-               'sliced:via': ['parts', 'make', 'source'],
+               'sliced:via': ['parts', 'make', 'source', 'pool'],
+               'pool:class': ['key absent from the FIRST shard', 'key absent from the LAST shard'],
                'sliced:slicer': ['default', 'default-cross', 'within', 'fn']}
 
 
@@ -656,8 +726,8 @@ def sl_oracle(case, o):
   from harness.core import deep_close
   st = case['strat']
   c02 = _c02()
-  if o.get('hang'):
-    return f"{sl_tag(st)} did not finish within {o.get('timeout')} s (hang)"
+  if o.get('hang') or (o.get('merged') or {}).get('hang'):
+    return f"{sl_tag(st)} did not finish within {(o.get('merged') or o).get('timeout')} s (hang)"
   whole, merged = o.get('whole', {}), o.get('merged', {})
   if whole.get('err'):
     return None        # the unsharded run itself fails: not a strategy question (C02 / C12)
@@ -688,7 +758,7 @@ def sl_oracle(case, o):
   for k in sorted(exp):
     if not deep_close(m[k], exp[k], rel=1e-9, abs_=1e-9):
       return f"{sl_tag(st)} {k[0]} {k[1]}: merged shard states give {m[k]}, brute-force group-by over the whole data {exp[k]}"
-  if merged.get('nstates') != (len(case['parts']) if st.get('via', 'parts') == 'parts' else st['k']):
+  if 'nstates' in merged and merged['nstates'] != (len(case['parts']) if st.get('via', 'parts') == 'parts' else st['k']):
     return f"{sl_tag(st)} {merged.get('nstates')} shard states"
   return None
 
@@ -712,7 +782,7 @@ def sl_model_requests(case):
 
 def sl_compare(case, o, resps):
   c02 = _c02()
-  if o.get('hang'):
+  if o.get('hang') or (o.get('merged') or {}).get('hang'):
     return None
   for which in ('whole', 'merged'):
     impl = o.get(which, {})
